@@ -130,3 +130,7 @@ package accum
 //@   mode int
 //@   requires ctx != nil && oa.callback != nil
 //@   modifies allof(*flushBuffer)
+//@   # C15 (Run returns only after every group was delivered): a group is signalled as done only AFTER its callback ran —
+//@   # at every Done there have been exactly as many deliveries as Done signals (ghost call counters)
+//@   fncall oa.flushWg.Done requires called(oa.flush) == called(oa.flushWg.Done)
+//@   loop 0 invariant called(oa.flush) == called(oa.flushWg.Done)
